@@ -18,6 +18,17 @@ fn main() {
         if trimmed == "session.reset" {
             session = gneiss_mqtt::verif::Session::new();
             let _ = writeln!(out, "res=ok");
+        } else if trimmed.starts_with("aws.") {
+            let (head, payload) = match trimmed.find(" | ") { Some(p) => (&trimmed[..p], &trimmed[p + 3..]), None => (trimmed, "") };
+            let verb = head.split(' ').next().unwrap_or("");
+            let result = std::panic::catch_unwind(|| match verb {
+                "aws.customauth" => gneiss_mqtt_aws::verif::custom_auth(head),
+                "aws.connect" => gneiss_mqtt_aws::verif::final_connect_options(head, payload),
+                "aws.defaults" => gneiss_mqtt_aws::verif::client_defaults(payload),
+                _ => Err("unknown aws verb".to_string()),
+            });
+            let response = match result { Ok(Ok(r)) => r, Ok(Err(e)) => format!("res=bad-request {}", e.replace('\n', " ")), Err(_) => "res=panic".to_string() };
+            let _ = writeln!(out, "{}", response);
         } else {
             let response = session.dispatch(trimmed);
             let _ = writeln!(out, "{}", response);
